@@ -84,8 +84,15 @@ def monitor(case, obs):
     prev_stack = None
     for i, ev, ctx in x.events():
         if ctx.get("reader") or "stack" not in ctx: continue
-        if ev[0] == "cb<" and ev[2] == "closed" and ctx["stack"] == [] and stop is None:
-            later_h = [e for e, c in x.x[i + 1:] if e[0] == "H"]
+        raised_closed = False
+        if ev[0] == "cb" and ev[2] == "closed" and ctx["stack"] == [] and stop is None:
+            # closed() of the last screen raised an ordinary exception (no return observation): the screen is gone all the same; what runs after the
+            # exception was handled runs after the last screen closed
+            nxt = next((e for e, c in x.x[i + 1:] if e[0] in ("cb<", "EXC-handled") and not c.get("reader")), None)
+            raised_closed = nxt is not None and nxt[0] == "EXC-handled"
+        if ((ev[0] == "cb<" and ev[2] == "closed") or raised_closed) and ctx["stack"] == [] and stop is None:
+            j = i if not raised_closed else next(k for k in range(i + 1, len(x.x)) if x.x[k][0][0] == "EXC-handled")
+            later_h = [e for e, c in x.x[j + 1:] if e[0] == "H"]
             if later_h: return "the last screen was closed (the stack is empty) but handler %d ran afterwards" % later_h[0][1]
             if obs["outcome"][0] in ("blocked", "fuel") and not blocking_api: return "the last screen was closed (the stack is empty) but run() did not return (%r)" % (obs["outcome"],)
     if len(quitcbs) > 1: return "the quit callback was invoked %d times" % len(quitcbs)
